@@ -894,6 +894,14 @@ def value_getattr(I, a, name):
     if name == 'take':
         def take(I, r, args, kw):
             i = args[0]
+            ax = kw.get('axis', args[1] if len(args) > 1 else None)
+            if ax is not None and not isinstance(i, (SArr, list, tuple)):
+                # a.take(i, axis=k) with a scalar index: the axis is dropped (a copy)
+                if is_sym(ax):
+                    raise Unsupported('take with symbolic axis')
+                ax = ax % r.ndim
+                idx = tuple(i if k == ax else slice(None) for k in range(r.ndim))
+                return basic_index(I, r, idx).frozen()
             if r.ndim != 1:
                 raise Unsupported('take on n-d')
             i2 = sym.ite(sym.lt(i, 0), sym.add(i, r.shape[0]), i)
